@@ -6,7 +6,7 @@ func init() { Registry["C03"] = checkC03 }
 
 // C03 — the two decoders and the two encoders are interchangeable (structural part).
 func checkC03(c *Ctx, r *Report) {
-	r.Explanation = "O-WRITE: every method of bits.FixedSliceWriter that advances the write offset also stores into the buffer (reserved zero bytes are written, not skipped), so EncodeSW into a caller's buffer writes the same bytes as Encode. T-REG: the registries decoders/decodersSR have the same keys, a consistent one-to-one pairing of functions and the same concrete box types per key; " +
+	r.Explanation = "O-POS (relative): the start position DecodeFileSR records for the next box is the reader position minus the position the reader had before the box loop. O-WRITE: every method of bits.FixedSliceWriter that advances the write offset also stores into the buffer (reserved zero bytes are written, not skipped), so EncodeSW into a caller's buffer writes the same bytes as Encode. T-REG: the registries decoders/decodersSR have the same keys, a consistent one-to-one pairing of functions and the same concrete box types per key; " +
 		"T-DELEG: every reader-path decoder that delegates calls the SR decoder registered for the same box types with (hdr, startPos, NewFixedSliceReader(readBoxBody(r, hdr))); " +
 		"T-WRAP: every Encode(w) of wrapper shape allocates exactly int(recv.Size()), calls recv.EncodeSW on it, checks the error and writes sw.Bytes(); " +
 		"W-DD / W-EE: separately written decoder pairs and non-wrapper encoder pairs have the same wire layout per configuration (layout engine). " +
@@ -20,6 +20,7 @@ func checkC03(c *Ctx, r *Report) {
 	ruleSMEMBEREnc(c, r)
 	ruleSCloneSwitch(c, r, "mp4", "DecodeFile", "DecodeFileSR", "boxType")
 	ruleSizeDependsEncoded(c, r, map[string]bool{"mp4": true})
+	ruleStartPosRelative(c, r)
 	if n := ruleWriterStoresBytes(c, r); n < 10 {
 		r.Undecided("O-WRITE", "scope", "", fmt.Sprintf("only %d methods of bits.FixedSliceWriter that advance the offset found", n))
 	}
